@@ -965,7 +965,7 @@ fn main() {
             // one wall-clock budget for the whole tier, handed to each world as what is left of it
             // (calibration, 16 idle cores: quick ~20 s, thorough ~4.5 min)
             let t0 = std::time::Instant::now();
-            let budget: u64 = std::env::var("C05_BUDGET").ok().and_then(|s| s.parse().ok()).unwrap_or(tier.pick(42, 570));
+            let budget: u64 = std::env::var("C05_BUDGET").ok().and_then(|s| s.parse().ok()).unwrap_or(tier.pick(36, 540));
             let left = || budget.saturating_sub(t0.elapsed().as_secs()).max(1);
             let tag = |a: &'static str, b: &'static str| if th { b } else { a };
             let only = std::env::var("C05_ONLY").ok();
